@@ -86,6 +86,9 @@ func (o c17Op) String() string {
 	if o.Op == "swap" {
 		return "replace-file(f0)"
 	}
+	if o.Op == "relink" {
+		return "point-symlink-f0-to-another-index"
+	}
 	return fmt.Sprintf("%s(h%d)", o.Op, o.H)
 }
 
@@ -139,9 +142,31 @@ func c17Play(ctx *rt.Ctx, c c17Case, all bool) (viol string, sigOverride string,
 		files[f] = filepath.Join(ctx.Scratch, fmt.Sprintf("c17-%d-f%d.updog", c17Seq, f))
 		os.WriteFile(files[f], c17Masters[f], 0o644)
 	}
-	// file 1 is always addressed through a non-canonical spelling of its path (what is registered under one spelling
-	// must be released under the same one)
-	files[1] = ctx.Scratch + "/./" + filepath.Base(files[1])
+	// file 1 is always addressed through a non-canonical spelling of its path: <B>/link/../<name>, where link is a symbolic
+	// link to a directory <A>/sub, so that the operating system resolves the path to <A>/<name> - while a lexical clean-up
+	// of the path yields <B>/<name>, where a decoy (the other index) lies. What is registered under one spelling must be
+	// released under the same one, and the file that is opened must be the one the path names.
+	real1 := files[1]
+	dirA := filepath.Join(ctx.Scratch, fmt.Sprintf("c17-%d-A", c17Seq))
+	dirB := filepath.Join(ctx.Scratch, fmt.Sprintf("c17-%d-B", c17Seq))
+	os.MkdirAll(filepath.Join(dirA, "sub"), 0o755)
+	os.MkdirAll(dirB, 0o755)
+	os.Symlink(filepath.Join(dirA, "sub"), filepath.Join(dirB, "link"))
+	os.Rename(real1, filepath.Join(dirA, filepath.Base(real1)))
+	real1 = filepath.Join(dirA, filepath.Base(real1))
+	os.WriteFile(filepath.Join(dirB, filepath.Base(real1)), c17Masters[0], 0o644) // the decoy
+	files[1] = filepath.Join(dirB, "link") + "/../" + filepath.Base(real1)
+	defer os.RemoveAll(dirA)
+	defer os.RemoveAll(dirB)
+	// file 0 is addressed through a symbolic link; "relink" points the link to another index while nothing is open
+	real0 := files[0]
+	alt0 := files[0] + ".alt"
+	link0 := files[0] + ".link"
+	os.Symlink(real0, link0)
+	files[0] = link0
+	defer os.Remove(link0)
+	defer os.Remove(alt0)
+	defer os.Remove(real0)
 	handles := map[int]*c17Handle{}
 	content := [2]int{0, 1} // which master's bytes each path currently holds ("swap" replaces file 0 while it is closed)
 	flk.Sequential(true)
@@ -193,8 +218,23 @@ func c17Play(ctx *rt.Ctx, c c17Case, all bool) (viol string, sigOverride string,
 		case "swap":
 			// nobody has the file open: another index is put at the same path (what a nightly rebuild does); handles
 			// opened afterwards must answer from the new file, whatever the driver remembers about the old one
+			// (the new file keeps the old one's modification time, as `cp -p` or `rsync -t` publish it; the two masters
+			// have the same size: nothing but the content tells them apart)
+			fi, _ := os.Stat(files[0])
 			if err := os.WriteFile(files[0], c17Masters[1], 0o644); err != nil {
 				rt.Harnessf("swap: %v", err)
+			}
+			if fi != nil {
+				os.Chtimes(files[0], fi.ModTime(), fi.ModTime())
+			}
+			content[0] = 1
+		case "relink":
+			if err := os.WriteFile(alt0, c17Masters[1], 0o644); err != nil {
+				rt.Harnessf("relink: %v", err)
+			}
+			os.Remove(link0)
+			if err := os.Symlink(alt0, link0); err != nil {
+				rt.Harnessf("relink: %v", err)
 			}
 			content[0] = 1
 		case "open":
@@ -364,11 +404,11 @@ func c17Enabled(c c17Case, o c17Op) bool {
 		}
 	}
 	switch o.Op {
-	case "swap":
+	case "swap", "relink":
 		// once per history, whenever no handle is open (also initially: enabledness must be a function of the state,
 		// and a state in which everything is closed again may have been merged with the initial one)
 		for _, p := range c.Ops {
-			if p.Op == "swap" {
+			if p.Op == "swap" || p.Op == "relink" {
 				return false
 			}
 		}
@@ -412,7 +452,7 @@ func c17Alphabet() []c17Op {
 			ops = append(ops, c17Op{Op: k, H: h})
 		}
 	}
-	return append(ops, c17Op{Op: "swap"})
+	return append(ops, c17Op{Op: "swap"}, c17Op{Op: "relink"})
 }
 
 type c17Args struct {
@@ -442,7 +482,7 @@ func c17Unmerged(ctx *rt.Ctx, pool int) []*rt.Violation {
 		}
 		alpha = append(alpha, c17Op{Op: "query", H: h}, c17Op{Op: "close", H: h})
 	}
-	alpha = append(alpha, c17Op{Op: "swap"}) // histories that replace the closed file may be one step longer
+	alpha = append(alpha, c17Op{Op: "swap"}, c17Op{Op: "relink"}) // histories that replace the closed file may be one step longer
 	var vs []*rt.Violation
 	conflictSeen := false
 	var rec func(c c17Case) bool
@@ -465,7 +505,7 @@ func c17Unmerged(ctx *rt.Ctx, pool int) []*rt.Violation {
 		}
 		hasSwap := false
 		for _, o := range c.Ops {
-			hasSwap = hasSwap || o.Op == "swap"
+			hasSwap = hasSwap || o.Op == "swap" || o.Op == "relink"
 		}
 		if len(c.Ops) == 6 || (len(c.Ops) == 5 && !hasSwap) {
 			return true
@@ -634,6 +674,8 @@ type c17Params struct {
 	Args    bool `json:"args"`              // every thread binds a different argument (direct and prepared path)
 	LRU     bool `json:"lru"`               // the DSN asks for an LRU cache, which all connections of the file then share
 	Preload bool `json:"preload,omitempty"` // the DSN asks for preloaded data
+	Tiny    bool `json:"tiny,omitempty"`    // with LRU: a cache too small to keep any entry (lrucachesize=10)
+	Cancel  bool `json:"cancel,omitempty"`  // thread 0 runs a statement under a context that thread 1 cancels at any moment, then runs it again
 }
 
 func c17Driver() driver.Driver {
@@ -664,7 +706,9 @@ func c17ConcScenario(ctx *rt.Ctx, p c17Params, outcome *string) vsched.Scenario 
 		file := filepath.Join(ctx.Scratch, fmt.Sprintf("c17c-%d.updog", c17Seq))
 		os.WriteFile(file, c17Masters[0], 0o644)
 		dsn := "file:" + file
-		if p.LRU {
+		if p.LRU && p.Tiny {
+			dsn += "?lrucache=true&lrucachesize=10"
+		} else if p.LRU {
 			dsn += "?lrucache=true&lrucachesize=1000000"
 		} else if p.Preload {
 			dsn += "?preload=true"
@@ -708,6 +752,81 @@ func c17ConcScenario(ctx *rt.Ctx, p c17Params, outcome *string) vsched.Scenario 
 				return "close error: " + err.Error()
 			}
 			return strings.Join(s, ",")
+		}
+		if p.Cancel {
+			// thread 0: one connection, one statement (prepared, and the direct path): executed with argument "1" under a
+			// context that thread 1 cancels at whatever moment, then again with argument "5" under a context nobody
+			// cancels. The first execution may fail with the context's error or return the rows of "1"; the second must
+			// return the rows of "5" - never what the abandoned first execution left behind.
+			var first, second [2]string
+			readAll := func(rows driver.Rows, err error) string {
+				if err != nil {
+					return "error: " + err.Error()
+				}
+				defer rows.Close()
+				var s []string
+				vals := make([]driver.Value, len(rows.Columns()))
+				for {
+					if err := rows.Next(vals); err == io.EOF {
+						break
+					} else if err != nil {
+						return "next error: " + err.Error()
+					}
+					s = append(s, fmt.Sprintf("%v:%v", vals[0], vals[1]))
+				}
+				return strings.Join(s, ",")
+			}
+			cctx, cancel := context.WithCancel(context.Background())
+			octx, ocancel := context.WithCancel(context.Background())
+			bodies := []func(){
+				func() {
+					conn, err := drv.Open(dsn)
+					if err != nil {
+						first[0] = "open error: " + err.Error()
+						return
+					}
+					defer conn.Close()
+					st, err := conn.Prepare(c17ConcPrepQuery)
+					if err != nil {
+						first[0] = "prepare error: " + err.Error()
+						return
+					}
+					defer st.Close()
+					run := func(c context.Context, arg string, prepared bool) string {
+						nv := []driver.NamedValue{{Ordinal: 1, Value: arg}}
+						if !prepared {
+							return readAll(conn.(driver.QueryerContext).QueryContext(c, c17ConcPrepQuery, nv))
+						}
+						if sc, ok := st.(driver.StmtQueryContext); ok {
+							return readAll(sc.QueryContext(c, nv))
+						}
+						return readAll(st.Query([]driver.Value{arg}))
+					}
+					first[0] = run(cctx, "1", true)
+					second[0] = run(octx, "5", true)
+					first[1] = run(cctx, "1", false)
+					second[1] = run(octx, "5", false)
+				},
+				func() { cancel() },
+			}
+			check := func(r *vsched.Result) string {
+				defer os.Remove(file)
+				defer ocancel()
+				for i, path := range []string{"prepared statement", "direct query"} {
+					if first[i] != wantArg["1"] && !strings.Contains(first[i], "context canceled") {
+						return fmt.Sprintf("%s under a context that is cancelled concurrently returned %q (expected the rows %q or the context's error)", path, first[i], wantArg["1"])
+					}
+					if second[i] != wantArg["5"] {
+						return fmt.Sprintf("%s executed again (argument 5) after the cancelled execution returned %q, expected %q", path, second[i], wantArg["5"])
+					}
+				}
+				if !flk.Free(file) {
+					return "the connection is closed but the file is still locked"
+				}
+				*outcome = fmt.Sprintf("first=%v", strings.Contains(first[0], "context canceled"))
+				return ""
+			}
+			return bodies, check
 		}
 		var bodies []func()
 		for t := 0; t < p.Threads; t++ {
@@ -771,9 +890,9 @@ func c17Run(ctx *rt.Ctx) []*rt.Violation {
 		bound  int
 		shards int // level-1 subtrees of the schedule tree are dealt to this many worker processes
 	}
-	concs := []cc{{c17Params{Threads: 2}, 2, 2}, {c17Params{Threads: 2, Mixed: true}, 2, 5}, {c17Params{Threads: 3}, 1, 1}, {c17Params{Threads: 2, Args: true}, 2, 2}, {c17Params{Threads: 3, Args: true}, 1, 1}, {c17Params{Threads: 2, LRU: true}, 2, 2}, {c17Params{Threads: 2, Args: true, LRU: true}, 1, 1}, {c17Params{Threads: 2, Preload: true}, 1, 1}, {c17Params{Threads: 3, Args: true, Preload: true}, 1, 1}}
+	concs := []cc{{c17Params{Threads: 2}, 2, 2}, {c17Params{Threads: 2, Mixed: true}, 2, 5}, {c17Params{Threads: 3}, 1, 1}, {c17Params{Threads: 2, Args: true}, 2, 2}, {c17Params{Threads: 3, Args: true}, 1, 1}, {c17Params{Threads: 2, LRU: true}, 2, 2}, {c17Params{Threads: 2, Args: true, LRU: true}, 1, 1}, {c17Params{Threads: 2, Preload: true}, 1, 1}, {c17Params{Threads: 3, Args: true, Preload: true}, 1, 1}, {c17Params{Threads: 2, LRU: true, Tiny: true}, 2, 2}, {c17Params{Threads: 2, Args: true, Cancel: true}, 2, 2}}
 	if ctx.Thorough() {
-		concs = []cc{{c17Params{Threads: 2}, 4, 6}, {c17Params{Threads: 2, Mixed: true}, 3, 8}, {c17Params{Threads: 3}, 2, 6}, {c17Params{Threads: 3, Mixed: true}, 2, 8}, {c17Params{Threads: 2, Args: true}, 3, 4}, {c17Params{Threads: 3, Args: true}, 2, 6}, {c17Params{Threads: 2, LRU: true}, 3, 4}, {c17Params{Threads: 3, Args: true, LRU: true}, 1, 2}, {c17Params{Threads: 2, Preload: true}, 3, 4}, {c17Params{Threads: 3, Args: true, Preload: true}, 2, 6}}
+		concs = []cc{{c17Params{Threads: 2}, 4, 6}, {c17Params{Threads: 2, Mixed: true}, 3, 8}, {c17Params{Threads: 3}, 2, 6}, {c17Params{Threads: 3, Mixed: true}, 2, 8}, {c17Params{Threads: 2, Args: true}, 3, 4}, {c17Params{Threads: 3, Args: true}, 2, 6}, {c17Params{Threads: 2, LRU: true}, 3, 4}, {c17Params{Threads: 3, Args: true, LRU: true}, 1, 2}, {c17Params{Threads: 2, Preload: true}, 3, 4}, {c17Params{Threads: 3, Args: true, Preload: true}, 2, 6}, {c17Params{Threads: 3, LRU: true, Tiny: true}, 2, 6}, {c17Params{Threads: 2, Args: true, Cancel: true}, 4, 6}}
 	}
 	var conc []rt.Job
 	for _, c := range concs {
@@ -812,7 +931,7 @@ func c17Run(ctx *rt.Ctx) []*rt.Violation {
 	ctx.Cov.Note("sequential", fmt.Sprintf("BFS over histories of {Open(dsn) for 2 files x 2 option strings, Query, Prepare+Stmt.Query, two overlapping Queries, Close} through database/sql with the registered driver, <=3 live handles, pool size in {unlimited,1}, depth %d, states merged on (handle pool stats, generic dump of all driver fields), each level expanded by parallel worker processes; file 1 is addressed through a non-canonical path spelling; plus every history to depth 5 over the reduced alphabet {3 DSNs, query, close, <=2 handles} WITHOUT state merging (state kept outside the driver object cannot hide there)", depth))
 	var cdesc []string
 	for _, c := range concs {
-		cdesc = append(cdesc, fmt.Sprintf("%d threads%s%s%s: <=%d preemptions, %d shard(s)", c.p.Threads, map[bool]string{true: " +reopen"}[c.p.Mixed], map[bool]string{true: " +different arguments"}[c.p.Args], map[bool]string{true: " +LRU option"}[c.p.LRU]+map[bool]string{true: " +preload option"}[c.p.Preload], c.bound, c.shards))
+		cdesc = append(cdesc, fmt.Sprintf("%d threads%s%s%s: <=%d preemptions, %d shard(s)", c.p.Threads, map[bool]string{true: " +reopen"}[c.p.Mixed], map[bool]string{true: " +different arguments"}[c.p.Args], map[bool]string{true: " +LRU option"}[c.p.LRU]+map[bool]string{true: " +preload option"}[c.p.Preload]+map[bool]string{true: " (cache too small for any entry)"}[c.p.Tiny]+map[bool]string{true: " (thread 0: a statement under a context that thread 1 cancels, then the same statement again)"}[c.p.Cancel], c.bound, c.shards))
 	}
 	ctx.Cov.Note("concurrent", fmt.Sprintf("%v: threads each doing driver.Open -> QueryContext -> Close on one file (what database/sql does on concurrent first use of a fresh handle), preemption-bounded DFS, file-lock waits are scheduling points, race detector live", cdesc))
 	ctx.Cov.Note("rule", "sequential: every transition replayed on fresh file copies, checks rows, no panic, no lock wait (a wait in a single-threaded history is a hang), file released after last Close; concurrent: no deadlock/panic/race, rows correct, file free at the end")
